@@ -3,6 +3,7 @@ DESIGN.md section 4, C12."""
 import re
 
 import common
+from mir import enum_variant_of
 from c15 import run as _c15  # noqa: F401
 from mir import enumerate_paths, op_bare_local
 
@@ -44,6 +45,7 @@ def run(ctx):
     R5 = rep.rule('C12.R5', 'entry kind from the file system, extension from the shared helper', floor=1)
     R7 = rep.rule('C12.R7', 'an id builder handed in by reference is reset before it is used', floor=1)
     R8 = rep.rule('C12.R8', 'every reported path is resolved against every watched root: no iteration over paths or roots in handle_event stops early', floor=1)
+    R9 = rep.rule('C12.R9', 'the watcher is wired up: every root given to watch() is handed to notify and remembered, the first event is not lost while the handler is installed, and the FileSystem source watches its own root and starts the watcher', floor=4)
     R6 = rep.rule('C12.R6', 'the watched root itself is nameable: id_of_path can return Directory("") for path == root', floor=1)
     for cfg, F in ctx.cfgs():
         hr = 'hot-reloading' in ctx.cfg_features[cfg]
@@ -53,7 +55,8 @@ def run(ctx):
             r5(R5, cfg, F)
             r6(R6, cfg, F)
             r8(R8, cfg, F)
-            for r in (R1, R2, R5, R6, R8):
+            r9(R9, cfg, F)
+            for r in (R1, R2, R5, R6, R8, R9):
                 r.finish_cfg(cfg)
         if hr or 'zip' in ctx.cfg_features[cfg] or 'tar' in ctx.cfg_features[cfg]:
             r7(R7, cfg, F)
@@ -422,6 +425,99 @@ def r6(R6, cfg, F):
 SHORT_CIRCUIT = {'find', 'find_map', 'any', 'all', 'position', 'rposition', 'take', 'take_while', 'map_while', 'nth', 'nth_back', 'last', 'min', 'max',
                  'min_by', 'max_by', 'min_by_key', 'max_by_key', 'skip', 'skip_while', 'step_by', 'next_back', 'try_for_each', 'try_fold', 'reduce',
                  'rev_find', 'rfind', 'first', 'get', 'split_first', 'split_last'}
+
+
+def r9(R9, cfg, F):
+    W = 'hot_reloading::watcher::'
+    # FsWatcherBuilder::watch: notify watches the path (recursively) and the root is remembered for id_of_path
+    b = F.body(W + 'FsWatcherBuilder::watch')
+    if not b:
+        R9.missing(cfg, 'FsWatcherBuilder::watch')
+    else:
+        nw = [c for c in b.calls() if c.callee and c.callee.name == 'watch' and 'notify' in c.callee.best]
+        ps = [c for c in b.calls() if c.callee and c.callee.name == 'push' and 'Vec' in c.callee.best and 'roots' in (common.deep_path(b, c.args[0]) or [])]
+        ok = len(nw) == 1 and len(ps) == 1 and b.origins(nw[0].args[1], passthrough=common.pt_deref) == {('arg', 2)} \
+            and common.strip_refs(common.deep_path(b, ps[0].args[1], at=ps[0].bb)) == ['arg2'] and common.guarded_by_variant(b, ps[0].bb, [['call@bb%d' % nw[0].bb]], 0)
+        if ok:
+            g = [x for x in common.guards_of(b, ps[0].bb) if x[3][0] == 'discr']
+            ok = common.inevitable(b, g, ps[0].bb) and common.inevitable(b, [], nw[0].bb)
+            mode = enum_variant_of(b, nw[0].args[2]) if len(nw[0].args) > 2 else set()
+            ok = ok and mode == {'Recursive'}
+        R9.check(ok, cfg, b.path, 'watch=notify.watch(path,Recursive)+roots.push(path)', 'watch(path) must register the path with notify (recursively) and, when that succeeded, remember it as a root', b.loc())
+    # EventHandlerPayload: the event that arrives while the handler is being installed is handled too, and the handler is kept
+    b = F.body('<' + W + 'EventHandlerPayload<H> as notify::EventHandler>::handle_event')
+    if not b:
+        R9.missing(cfg, 'EventHandlerPayload::handle_event')
+    else:
+        tr = [c for c in b.calls() if c.callee and c.callee.name == 'try_recv']
+        he = [c for c in b.calls() if c.callee and c.callee.name == 'handle_event']
+        sd = [(bb, st) for bb, _, st in b.assigns() if st['rv']['k'] == 'aggregate' and st['rv'].get('variant_name') == 'Handler' and not b.blocks[bb]['cleanup']]
+        ok = len(tr) == 1 and len(he) == 2 and len(sd) == 1
+        if ok:
+            on_ok = [c for c in he if common.guarded_by_variant(b, c.bb, [['call@bb%d' % tr[0].bb]], 0)]
+            ok = len(on_ok) == 1 and common.guarded_by_variant(b, sd[0][0], [['call@bb%d' % tr[0].bb]], 0) \
+                and all(common.strip_refs(common.deep_path(b, c.args[1], at=c.bb)) == ['arg2'] for c in he)
+            if ok:
+                g = [x for x in common.guards_of(b, on_ok[0].bb) if x[3][0] == 'discr']
+                ok = common.inevitable(b, g, on_ok[0].bb) and common.inevitable(b, g, sd[0][0])
+        R9.check(ok, cfg, b.path, 'first-event-handled-and-handler-kept', 'when the handler arrives, the event at hand must be given to it and the handler stored for the next ones', b.loc())
+    # FileSystem::configure_hot_reloading: watches its own root, then starts the watcher with the sender it was given
+    b = F.body('<source::filesystem::FileSystem as source::Source>::configure_hot_reloading')
+    if not b:
+        R9.missing(cfg, 'FileSystem::configure_hot_reloading')
+    else:
+        wt = [c for c in b.calls() if c.callee and c.callee.best == W + 'FsWatcherBuilder::watch']
+        bd = [c for c in b.calls() if c.callee and c.callee.best == W + 'FsWatcherBuilder::build']
+        ok = len(wt) == 1 and len(bd) == 1 and b.dominates(wt[0].bb, bd[0].bb) and common.guarded_by_variant(b, bd[0].bb, [['call@bb%d' % wt[0].bb]], 0)
+        if ok:
+            pt = common.make_pt(r'Clone>::clone$', r'Into<U>>::into$', r'to_path_buf$', r'ToOwned>::to_owned$')
+            ok = 'path' in str(b.access_path(b.call_roots(wt[0].args[1], passthrough=None)[0].args[0]) if b.call_roots(wt[0].args[1]) else common.deep_path(b, wt[0].args[1])) \
+                and common.strip_refs(common.deep_path(b, bd[0].args[1], at=bd[0].bb)) == ['arg2']
+            g = [x for x in common.guards_of(b, bd[0].bb) if x[3][0] == 'discr']
+            ok = ok and common.inevitable(b, g, bd[0].bb)
+        R9.check(ok, cfg, b.path, 'configure=watch(self.path)+build(events)', 'configure_hot_reloading must watch the source\'s own root and then start the watcher with the event sender it was given', b.loc())
+    # IdBuilder::push: segments are separated by exactly one '.', put before every segment but the first
+    pb = F.body('utils::private::IdBuilder::push')
+    if not pb:
+        R9.missing(cfg, 'IdBuilder::push')
+    else:
+        pc = [c for c in pb.calls() if c.callee and c.callee.best == 'std::string::String::push' and c.args[1].get('text', '').startswith("'.'")]
+        ps = [c for c in pb.calls() if c.callee and c.callee.name == 'push_str']
+        ie = [c for c in pb.calls() if c.callee and c.callee.name == 'is_empty' and 'buf' in (common.deep_path(pb, c.args[0]) or [])]
+        ok = len(pc) == 1 and len(ps) == 1 and len(ie) == 1 and pb.dominates(ie[0].bb, pc[0].bb) and ps[0].bb in pb.reachable([pc[0].target] if pc[0].target is not None else [])
+        if ok:
+            tg = [(x, t) for x, t in common.call_truth_guards(pb, pc[0].bb) if x is ie[0]]
+            ok = tg == [(ie[0], False)]
+            # and with a non-empty buffer the separator is not skipped
+            if ok:
+                sws = [bb for bb, t in pb.terms() if t['k'] == 'switch' and any(x is ie[0] for x, _ in _bool_src(pb, bb))]
+                ok = len(sws) == 1 and len([d for d, _ in pb.edges(sws[0]) if pc[0].bb not in pb.reachable([d]) and d != pc[0].bb]) == 1
+        R9.check(ok, cfg, pb.path, 'separator-before-every-segment-but-the-first', "IdBuilder::push must append '.' exactly when the buffer is not empty, then the segment", pb.loc())
+
+
+def _bool_src(b, sw):
+    """[(call, truth)] the call whose bool result the switch at `sw` tests, through copies and `!`"""
+    t = b.blocks[sw]['term']
+    if t['discr']['k'] not in ('copy', 'move') or t['discr']['place']['p']:
+        return []
+    l, at, truth = t['discr']['place']['l'], sw, True
+    for _ in range(8):
+        ds = [d for d in b.defs_of(l) if d[0] in ('stmt', 'call')]
+        if len(ds) > 1:
+            ds = [d for d in ds if d[1] == at] or ds
+        if len(ds) != 1:
+            return []
+        d = ds[0]
+        if d[0] == 'call':
+            return [(d[2], truth)]
+        rv = d[3]['rv']
+        if rv['k'] == 'use' and rv['op']['k'] in ('copy', 'move') and not rv['op']['place']['p']:
+            l, at = rv['op']['place']['l'], d[1]
+        elif rv['k'] == 'unop' and rv['a']['k'] in ('copy', 'move') and not rv['a']['place']['p']:
+            l, at, truth = rv['a']['place']['l'], d[1], not truth
+        else:
+            return []
+    return []
 
 
 def r8(R8, cfg, F):
